@@ -108,6 +108,9 @@ def gen_case(rng):
             src_lines += ["if True:", indent + "q0 = 0"]                 # the z-lines follow as 2nd, 3rd ... statements of the block
         elif pre == "fstring":
             src_lines += ['f0 = f"{{x}} %s{{}}"' % specs[0]["token"]]     # escaped braces and the token as literal text of an f-string
+            # ... and literal parts that ARE a token, whole (Python >= 3.12: a literal part is a token of its own, without quotes)
+            tk = rng.choice(specs)["token"]
+            src_lines += rng.choice([['f1 = f"%s"' % tk], ['f1 = f"{v1}%s{v2}"' % tk], ['f1 = f"%s{v1}"' % tk, 'f2 = f"{v1}%s"' % specs[-1]["token"]]])
         elif pre == "continuation":
             src_lines += ["c0 = 1 + \\", "    2"]                        # a backslash continuation before the occurrences
         elif pre == "mlstring":
